@@ -90,18 +90,18 @@ def gen_directed(ctx, k):
     sc.add('flush', 'quiesce', 'flush', 'quiesce', 'snap end', 'drain', 'stop')
     return sc.text(), cfg, nodes, last_set, npong, 2
 
-def gen_scenario(ctx, k, flavour):
+def gen_scenario(ctx, k, flavour, small=False):
     rng = ctx.sub_rng('c10', k)
     cfg, d, nodes, m, b0 = make_cfg(rng, f'c10_{k}')
     sc = Scn(seed=ctx.seed * 113 + k, perturb=rng.choice([0, 100, 300, 600]), watchdog=300000)
     sc.add(*cfggen.bus_lines(cfg, nodes), 'bus brackets 1', f'start {d} {rng.choice([1, 2, 5])}', 'quiesce', 'mark conc_begin')
-    nt = rng.choice([2, 3, 4, 8, 16])
+    nt = rng.choice([2, 3, 4, 8, 16]) if not small else rng.choice([2, 3, 4])
     tos = [b for b in cfg['boards'] if cfggen.is_track_output(b) and m.connected(b['id'])]
     to = tos[0]['id']
     sc.add(f'par {nt + 1}')
     # thread 0: the feeder - state-changing feedback (one message per packet) and unique PONGs for the queue oracle
     npong = 0
-    nfeed = rng.randrange(60, 200)
+    nfeed = rng.randrange(60, 200) if not small else rng.randrange(30, 60)
     for i in range(nfeed):
         if rng.random() < 0.25 and npong < 110:
             sc.add('t 0 ' + up(model.build_msg((0, 0, 0), 0, C('MSG_SYS_PONG'), bytes([npong & 0xFF, npong >> 8, 0x5C]))))
@@ -124,7 +124,7 @@ def gen_scenario(ctx, k, flavour):
     addrs = [m.addr[b['id']] for b in cfg['boards'] if m.connected(b['id'])]
     for t in range(1, nt + 1):
         mine = [f for f in fns if owners[f] == t]
-        for i in range(rng.randrange(60, 160)):
+        for i in range(rng.randrange(60, 160) if not small else rng.randrange(25, 50)):
             r_ = rng.random()
             if r_ < 0.3 and mine:
                 f = rng.choice(mine)
@@ -289,7 +289,7 @@ def run(ctx):
     ctx.rule = ('normal-mode sessions (generated config, two trains with eight functions each, a track output / booster, segments), auto-flush 1-5 ms, 2-16 application threads each '
                 'running 60-160 random thread-safe calls (train-function commands with one writer per function, low-level sends, pings, segment/booster/train/whole-state getters, '
                 'flush, both read functions) against a feeder delivering 60-200 state-changing messages and unique PONGs; perturbation 0-60% at every lock operation; tsan, asan and '
-                'mon flavours. non-trivial = distinct schedule with >5 checked getter results and >100 contract checks')
+                'mon flavours; reduced scenarios under valgrind helgrind (sees inside glib). non-trivial = distinct schedule with >5 checked getter results and >100 contract checks')
     ctx.assumptions = ['TSan suppresses only the four volatile lifecycle flags (tsan.supp)', 'glib is not instrumented: races inside containers are covered by the contract monitor only',
                        'bidib_send_sys_reset is excluded (README)']
     jobs = []
@@ -309,5 +309,19 @@ def run(ctx):
             ctx.count('runs_' + fl)
             if len(j) > 7:
                 sweep.pause_stats(ctx, r.events, 'directed')
-    ctx.sample({'threads': jobs[0][6], 'worker_lines': [l for l in jobs[0][1].split('\n') if l.startswith('t 1 ')][:10]})
+    # (6) second opinion that also sees inside the uninstrumented glib: valgrind --tool=helgrind on reduced scenarios (plain flavour)
+    if only in ('', 'helgrind'):
+        hj = [gen_scenario(ctx, 7000 + k, 'plain', small=True) for k in range(ctx.n(3, 60))]
+        hres = runner.run_many('plain', [(i, j[0]) for i, j in enumerate(hj)], timeout=1800, valgrind='helgrind')
+        for j, r in zip(hj, hres):
+            meta = {'digest': hashlib.sha1(j[0].encode()).hexdigest()[:12], 'flavour': 'plain+helgrind', 'threads': j[5]}
+            if runner.outcome(r) != 'ok':
+                ctx.inconclusive.append(f'helgrind run ended {runner.outcome(r)}')
+                continue
+            for cls, site, text in runner.helgrind_reports(r.san):
+                ctx.violation(cls, site, text.split('\n')[0][:200] + f' ({site})', j[0], 'plain', meta, text)
+            ctx.count('runs_helgrind')
+            ctx.count('helgrind_api_calls', sum(1 for e in r.events if e.get('e') in ('ret', 'get', 'q', 'flushed')))
+    if jobs:
+        ctx.sample({'threads': jobs[0][6], 'worker_lines': [l for l in jobs[0][1].split('\n') if l.startswith('t 1 ')][:10]})
     return ctx.finish(min_eval=12, min_nontrivial=8)
